@@ -6,7 +6,8 @@ detection / tracking / sensing x {base_link, map} x merge on/off; the canonicali
 with the Lean model `PEval.Dataset.loadDataset` run on the same tables (exact rationals).  The oracle is
 the property text evaluated on the loaded frames against the generator's own tables with an
 independent numpy reference (no use of the model): counts, order, timestamps, per-object fields, pose
-identities (also through the real transform objects stored with the frame), tracked history.
+identities (also through the real transform objects stored with the frame), tracked history, and the averaged
+traffic-light camera transform stored with every frame (fixed finding C16-N1: cameras calibrated q and -q).
 
 Besides the 3-D tasks the same directories (plus `object_ann.json` / `surface_ann.json`) are loaded for the 2-D
 tasks (detection2d / tracking2d / classification2d / fp_validation2d, label families autoware and traffic_light, any
@@ -46,7 +47,7 @@ THEOREMS = [
         "tracking_history_exact", "prev_chain_exists_sorted", "tracking_history_exact_frame",
         "objects_velocity", "velocity_none_single", "velocity_formula", "velocity_exact_time", "velocity_total",
         "fp_validation_all_fp", "fp_validation_rejects", "sensor_channels_are_frame_ids",
-        "traffic_light_rotations_must_not_cancel",
+        "traffic_light_rotations_never_cancel", "traffic_light_average",
         "load_total",
         "label2d_total", "frames2d_length_order_time", "cameras_selected", "ego2map_2d",
         "objects2d_per_annotation", "roi_truncates_toward_zero", "traffic_light_uuid",
@@ -59,8 +60,12 @@ RULE = (
     "1.5 s and 3 s for the velocity bounds), 0..6 instances each present in a random subset of the samples (appearing, disappearing, "
     "re-appearing), annotation table shuffled, categories inside the label table (incl. upper/mixed case, merge-sensitive "
     "ones) and outside it, 0..2 attributes, all visibility levels/aliases/unknown levels with token != level and the "
-    "empty visibility table, 1..4 sensors incl. LIDAR_TOP and/or LIDAR_CONCAT (chosen lidar calibrated at the ego "
-    "origin, the others anywhere), extra non-key-frame sample_data, rational unit quaternions (squares of integer "
+    "empty visibility table, 1..7 sensors incl. LIDAR_TOP and/or LIDAR_CONCAT (chosen lidar calibrated at the ego "
+    "origin, the others anywhere); a quarter of the datasets carry a traffic-light camera rig of 2..3 calibrated "
+    "cameras (CAM_TRAFFIC_LIGHT_NEAR / _FAR / CAM_TRAFFIC_LIGHT) whose rotations relate to the first camera's q as: "
+    "-q exactly (fixed finding C16-N1), nearly antipodal (-q*d, d a rotation by 0.1..76 degrees), near (q*d), "
+    "orthogonal as 4-vectors (dot exactly 0), equal, or unrelated, and three-camera chains q, q*a, q*b where b is beyond "
+    "the first camera's half-space but inside the second's; extra non-key-frame sample_data, rational unit quaternions (squares of integer "
     "quaternions, yaw-only and full 3-D, both signs; the picked lidar's ego pose is fully 3-D in half of the samples), "
     "dyadic translations/sizes; 0..8 2-D annotations (object_ann) on camera key frames, sweeps and lidar records, bbox "
     "ints/floats/negative/inverted, instances with regulatory-element names sharing ids; each dataset is loaded for the "
@@ -100,8 +105,9 @@ TRUSTED = [
     "nuim.object_ann is in file order [every 2-D config; object_ann shuffled]",
     "the float `1e-6 * timestamp` (sample time in seconds) is computed by the harness with the same IEEE product and "
     "handed to the model exactly",
-    "pyquaternion (Quaternion(list), inverse, rotation_matrix, product) modelled by rational quaternion algebra; "
-    "orientations compared as rotation matrices within 1e-9",
+    "pyquaternion (Quaternion(list), inverse, rotation_matrix, product, negation, sum, division by the norm) and np.dot of "
+    "the components modelled by rational quaternion algebra; orientations compared as rotation matrices within 1e-9 (the "
+    "model keeps the averaged traffic-light rotation as the unnormalised sum: the same rotation matrix)",
     "translator harness/gen_tables.py (label pair tables, Visibility members and aliases)",
     "the dataset writer write_dataset (abstract tables -> the devkit's JSON files) and the boilerplate tables log/map/scene/surface_ann",
     "python set iteration order (merged traffic lights) is unspecified: merged objects are compared as a set keyed by uuid",
@@ -127,10 +133,14 @@ ASSUMPTIONS = [
     "every sensor channel is a FrameID value (else _get_transforms raises ValueError; contract family bad-channel); "
     "contract families are ill-formed or outside the property's domain and are not judged by the oracle",
     "category/attribute names are ASCII",
-    "known finding C16-N1 (traffic-light camera rotations that cancel make every load raise ZeroDivisionError) is "
-    "modelled as it behaves, so the correspondence agrees; the oracle failure is matched by known_finding() and "
-    "printed as KNOWN-FINDING; with three or more traffic-light calibrated sensors the model decides the cancellation "
-    "in exact rationals, the code in floats (the generator produces at most two such channels)",
+    "the averaged traffic-light camera (transform CAM_TRAFFIC_LIGHT -> BASE_LINK stored with every frame that has "
+    "transforms) is judged by the oracle against an independent exact reference: position = mean of the calibrated "
+    "translations, rotation = normalised sum of the calibrated rotations after negating those whose 4-D dot product with "
+    "the FIRST traffic-light camera's rotation is negative (q and -q are one rotation); compared as rotation matrices "
+    "(overall sign free); where a dot product is exactly 0 either sign is accepted (a float rounding decides), and the "
+    "model-vs-code comparison of the average is skipped; the CAM_TRAFFIC_LIGHT -> MAP product is not judged separately",
+    "fixed finding C16-N1: a ZeroDivisionError on a well-formed dataset (traffic-light cameras calibrated q and -q) is an "
+    "ordinary violation again; its replay harness/corpus/c16/n1_tlr_antipodal.json runs first in the corpus",
 ]
 
 TASKS = ["detection", "tracking", "sensing"]
@@ -162,6 +172,8 @@ LEVELS = ["v0-40", "v40-60", "v60-80", "v80-100", "full", "most", "partial", "no
           "v10-20", "", "FULL", "unknown"]
 OTHER_CHANNELS = ["CAM_FRONT", "CAM_BACK", "CAM_FRONT_LEFT", "RADAR_FRONT", "RADAR_BACK_LEFT", "CAM_TRAFFIC_LIGHT_NEAR",
                   "CAM_TRAFFIC_LIGHT_FAR", "CAM_FRONT_LOWER", "RADAR_BACK"]
+TLR_CHANNELS = ["CAM_TRAFFIC_LIGHT_NEAR", "CAM_TRAFFIC_LIGHT_FAR", "CAM_TRAFFIC_LIGHT"]
+TLR_RELATIONS = ["antipodal", "antipodal", "near-antipodal", "near-antipodal", "near", "orthogonal", "equal", "random"]
 ID_ROT = ["1", "0", "0", "0"]
 ZERO3 = ["0", "0", "0"]
 
@@ -202,6 +214,77 @@ def _rand_vec(rng, lo, hi, denom=8):
     return [core.q(Fraction(rng.randint(int(lo * denom), int(hi * denom)), denom)) for _ in range(3)]
 
 
+def _qmul(p, q_):
+    """Hamilton product of two quaternions given as 4 Fractions"""
+    a, b, c, d = p
+    e, f, g, h = q_
+    return [a * e - b * f - c * g - d * h, a * f + b * e + c * h - d * g, a * g - b * h + c * e + d * f, a * h + b * g - c * f + d * e]
+
+
+def _small_rot(rng):
+    """a rational unit quaternion close to 1: the square of (p, a, b, c) with p large and (a, b, c) a non-zero vector of {-1,0,1}^3:
+    rotation angles from 0.1 degrees (p = 2000) to 76 degrees (p = 5 with (1,1,1)), i.e. 4-D dot products with 1 from 0.9999995 down to 0.79"""
+    p = rng.choice([5, 12, 50, 400, 2000])
+    while True:
+        a, b, c = (rng.randint(-1, 1) for _ in range(3))
+        if (a, b, c) != (0, 0, 0):
+            break
+    n = p * p + a * a + b * b + c * c
+    return [Fraction(p * p - a * a - b * b - c * c, n), Fraction(2 * p * a, n), Fraction(2 * p * b, n), Fraction(2 * p * c, n)]
+
+
+_PURE = [(0, 1, 0, 0), (0, 0, 1, 0), (0, 0, 0, 1), (0, Fraction(3, 5), Fraction(4, 5), 0), (0, Fraction(1, 3), Fraction(-2, 3), Fraction(2, 3))]
+
+
+def _tlr_calibs(case):
+    """the calibrated sensors whose channel contains CAM_TRAFFIC_LIGHT, in calibrated_sensor TABLE order (the sensor
+    token resolved like nusc.get: the last record carrying it)"""
+    sen = {s["token"]: s for s in case["sensors"]}
+    return [c for c in case["calibrated_sensors"]
+            if c["sensor_token"] in sen and "CAM_TRAFFIC_LIGHT" in sen[c["sensor_token"]]["channel"].upper()]
+
+
+def shape_tlr(rng, case, relations=None):
+    """relate the calibrated rotation of every later traffic-light camera to the FIRST one's q (table order):
+    antipodal = -q (the same rotation; fixed finding C16-N1), near-antipodal = -(q*d), near = q*d (d a small rotation),
+    orthogonal = q*u with u a pure unit quaternion (4-D dot product exactly 0), equal = q, random = left as drawn;
+    chain (three cameras) = q, q*a, q*b with a = 5/13 + 12/13 u, b = -3/5 + 4/5 u: the third is on the far side of the
+    FIRST (dot -3/5: negated) but on the near side of the second (dot 33/65), so aligning with the previous camera
+    instead of the first gives another average"""
+    tl = _tlr_calibs(case)
+    if len(tl) < 2:
+        return case
+    q0 = [Fraction(v) for v in tl[0]["rotation"]]
+    if len(tl) >= 3 and (relations == ["chain"] or (relations is None and rng.random() < 0.3)):
+        u = [Fraction(v) for v in rng.choice(_PURE)]
+        sg = rng.choice([1, -1])
+        a = [Fraction(5, 13)] + [Fraction(12, 13) * v for v in u[1:]]
+        b = [Fraction(-3, 5)] + [Fraction(4, 5) * v for v in u[1:]]
+        tl[1]["rotation"] = [core.q(sg * v) for v in _qmul(q0, a)]
+        tl[2]["rotation"] = [core.q(sg * v) for v in _qmul(q0, b)]
+        return case
+    if relations == ["chain"]:
+        relations = None
+    for k, c in enumerate(tl[1:]):
+        rel = relations[k % len(relations)] if relations else rng.choice(TLR_RELATIONS)
+        if rel == "antipodal":
+            r = [-v for v in q0]
+        elif rel == "near-antipodal":
+            r = [-v for v in _qmul(q0, _small_rot(rng))]
+        elif rel == "near":
+            r = _qmul(q0, _small_rot(rng))
+        elif rel == "orthogonal":
+            r = _qmul(q0, [Fraction(v) for v in rng.choice(_PURE)])
+            if rng.random() < 0.5:
+                r = [-v for v in r]
+        elif rel == "equal":
+            r = list(q0)
+        else:
+            continue
+        c["rotation"] = [core.q(v) for v in r]
+    return case
+
+
 _JSON_INTS = False  # write_dataset(case with "json_ints": true): integer-valued numbers are written as JSON ints
 
 
@@ -232,7 +315,7 @@ def relink(case):
     return case
 
 
-def gen_dataset(rng, max_samples=6, lidar_mode=None, n_samples=None, family=None, dup_table=None):
+def gen_dataset(rng, max_samples=6, lidar_mode=None, n_samples=None, family=None, dup_table=None, tlr_rig=None):
     ns = n_samples if n_samples is not None else rng.randint(1, max_samples)
     samples = []
     steps = [50_000, 100_000, 100_000, 500_000, 500_000, 1_000_000, 1_500_000, 2_650_000, 3_000_000, 3_150_000, 3_150_001, 4_000_000]
@@ -250,6 +333,11 @@ def gen_dataset(rng, max_samples=6, lidar_mode=None, n_samples=None, family=None
     chans = {"top": ["LIDAR_TOP"], "concat": ["LIDAR_CONCAT"], "both": ["LIDAR_TOP", "LIDAR_CONCAT"],
              "both_rev": ["LIDAR_CONCAT", "LIDAR_TOP"], "none": []}[lidar_mode]
     others = rng.sample(OTHER_CHANNELS, rng.randint(0 if chans else 1, 3))
+    if tlr_rig is None:
+        tlr_rig = rng.random() < 0.25
+    if tlr_rig:  # a rig of 2..3 traffic-light cameras (+ at most one other sensor)
+        others = rng.sample(TLR_CHANNELS, rng.choice([2, 2, 3])) + rng.sample([c for c in OTHER_CHANNELS if c not in TLR_CHANNELS], rng.randint(0, 1))
+        rng.shuffle(others)
     chans = chans + others
     if rng.random() < 0.5:
         rng.shuffle(chans)
@@ -344,9 +432,8 @@ def gen_dataset(rng, max_samples=6, lidar_mode=None, n_samples=None, family=None
             "instances": instances, "annotations": anns, "object_anns": [],
             "configs": copy.deepcopy(ALL_CONFIGS) + rng.sample(FP_CONFIGS, 2), "configs2d": []}
     relink(case)
-    tl = [c for c in calibs if sensors[int(c["sensor_token"][3:])]["channel"].startswith("CAM_TRAFFIC_LIGHT")]
-    if len(tl) == 2 and rng.random() < 0.25:  # known finding C16-N1: the same rotation with opposite quaternion signs
-        tl[1]["rotation"] = [core.q(-Fraction(v)) for v in tl[0]["rotation"]]
+    if tlr_rig or rng.random() < 0.5:  # fixed finding C16-N1: the same rotation with opposite quaternion signs, and neighbours
+        shape_tlr(rng, case)
     add_2d(rng, case, tlr=rng.random() < 0.4)
     if family:
         apply_family(rng, case, family, dup_table)
@@ -583,7 +670,8 @@ def _tlr_case(labels=("green", "UNKNOWN", "red_left", "red_left"), third=None):
 
 
 def _n1_case():
-    """known finding C16-N1: two traffic-light cameras whose calibrated rotations are q and -q (the same rotation)"""
+    """fixed finding C16-N1: two traffic-light cameras whose calibrated rotations are q and -q (the same rotation);
+    equal to the stored replay harness/corpus/c16/n1_tlr_antipodal.json"""
     c = _tlr_case()
     c["sensors"].append({"token": "senX", "channel": "CAM_TRAFFIC_LIGHT_FAR", "modality": "camera"})
     c["calibrated_sensors"][-1]["rotation"] = ["4/5", "0", "0", "3/5"]
@@ -594,10 +682,39 @@ def _n1_case():
     return c
 
 
+def _n1_variant(rots, third=None):
+    """the rig of _n1_case with other rotations for the two traffic-light cameras (and optionally a third camera, FIRST
+    of the traffic-light cameras in table order)"""
+    c = _n1_case()
+    tl = _tlr_calibs(c)
+    tl[0]["rotation"], tl[1]["rotation"] = [list(r) for r in rots[:2]]
+    if third is not None:
+        c["sensors"].append({"token": "senY", "channel": "CAM_TRAFFIC_LIGHT", "modality": "camera"})
+        c["calibrated_sensors"].insert(1, {"token": "csY", "sensor_token": "senY", "translation": ["-2", "1/2", "3"], "rotation": list(third)})
+    return c
+
+
 def corpus():
-    cs = [_fixed_case(), _n1_case(), _tlr_case(), _tlr_case(("red", "green", "unknown", "UNKNOWN")), _tlr_case(third="yellow"),
-          _tlr_case(("crosswalk_red", "red", "blue", "foo"), third="RED")]
+    # replays of fixed findings first (harness/corpus/c16/*.json; duplicates are dropped at the end), then the hand-written cases
+    cs = []
+    for f in sorted((core.VERIF / "harness" / "corpus" / "c16").glob("*.json")):
+        payload = json.loads(f.read_text())
+        cs.append(payload.get("case", payload))
+    cs += [_fixed_case(), _n1_case(), _tlr_case(), _tlr_case(("red", "green", "unknown", "UNKNOWN")), _tlr_case(third="yellow"),
+           _tlr_case(("crosswalk_red", "red", "blue", "foo"), third="RED")]
     cs.append(_tlr_case(("unknown", "green", "UNKNOWN", "red_left")))
+    # traffic-light camera rigs around the fixed finding C16-N1: nearly antipodal (4-D dot products -24/25 and -0.9999995 with q),
+    # r / q / -q with the third camera FIRST in table order, exactly orthogonal 4-vectors, three cameras -q, q, -q
+    # (their plain sum is -q, not 0)
+    q, mq = ["4/5", "0", "0", "3/5"], ["-4/5", "0", "0", "-3/5"]
+    cs.append(_n1_variant([q, ["-3/5", "0", "0", "-4/5"]]))
+    d = [Fraction(3999999, 4000001), Fraction(4000, 4000001), Fraction(0), Fraction(0)]
+    cs.append(_n1_variant([q, [core.q(-v) for v in _qmul([Fraction(x) for x in q], d)]]))
+    cs.append(_n1_variant([q, mq], third=["1/2", "-1/2", "1/2", "-1/2"]))
+    cs.append(_n1_variant([q, ["-3/5", "0", "0", "4/5"]]))
+    cs.append(_n1_variant([q, mq], third=mq))
+    # 1, a, b in one plane at 4-D angles 0 / 67 / 127 degrees: b is negated with respect to the FIRST camera although it is near the second
+    cs.append(_n1_variant([["5/13", "12/13", "0", "0"], ["-3/5", "4/5", "0", "0"]], third=ID_ROT))
     import random as _r
     for k, fam in enumerate(CONTRACT_FAMILIES):
         cs.append(gen_dataset(_r.Random(1000 + k), n_samples=3, family=fam))
@@ -657,7 +774,13 @@ def corpus():
         for i, s in enumerate(c["samples"]):
             s["timestamp"] = 1_600_000_000_000_000 + i * step
         cs.append(c)
-    return cs
+    out, seen = [], set()
+    for c in cs:
+        k = json.dumps(c, sort_keys=True)
+        if k not in seen:
+            seen.add(k)
+            out.append(c)
+    return out
 
 
 def generate(rng, tier):
@@ -772,6 +895,16 @@ def _vel(v):
     return out
 
 
+def _canon_tlr(f):
+    """the averaged traffic-light camera stored with the frame (CAM_TRAFFIC_LIGHT -> BASE_LINK), None if absent"""
+    from perception_eval.common.schema import FrameID
+
+    m = f.transforms.get((FrameID.CAM_TRAFFIC_LIGHT, FrameID.BASE_LINK))
+    if m is None:
+        return None
+    return {"pos": [float(x) for x in m.position], "rot": _rotm(m.rotation)}
+
+
 def _canon_frames_2d(frames, family):
     from perception_eval.common.label import AutowareLabel, TrafficLightLabel
     from perception_eval.common.schema import FrameID
@@ -782,6 +915,7 @@ def _canon_frames_2d(frames, family):
         fr = {"t": f.unix_time, "name": f.frame_name, "n_transforms": len(f.transforms)}
         m = f.transforms.get((FrameID.BASE_LINK, FrameID.MAP))
         fr["ego2map"] = None if m is None else {"pos": [float(x) for x in m.position], "rot": _rotm(m.rotation)}
+        fr["tlr2ego"] = _canon_tlr(f)
         objs = []
         for o in f.objects:
             lab = o.semantic_label
@@ -808,6 +942,7 @@ def _canon_frames(frames):
     out = []
     for f in frames:
         fr = {"t": f.unix_time, "name": f.frame_name, "n_transforms": len(f.transforms)}
+        fr["tlr2ego"] = _canon_tlr(f)
         m = f.transforms.get((FrameID.BASE_LINK, FrameID.MAP))
         if m is None:
             fr["ego2map"] = None
@@ -900,7 +1035,7 @@ def model_requests(case, out):
     req = dict(tables, op="load", configs=[{"task": t, "frame": f, "merge": bool(m)} for t, f, m in case["configs"]])
     req2 = dict(tables, op="load2d", configs=[{"task": t, "family": fam, "merge": bool(m), "frames": list(fr)}
                                               for t, fam, m, fr in case.get("configs2d", [])])
-    return [req, req2]
+    return [req, req2, dict(tables, op="tlr")]
 
 
 def _qrot(qs):
@@ -976,7 +1111,41 @@ def _compare_2d(case, out, resp):
     return None
 
 
+def _tlr_dots(case):
+    """exact 4-D dot products of the later traffic-light cameras' calibrated rotations with the first one's"""
+    rots = [[Fraction(v) for v in c["rotation"]] for c in _tlr_calibs(case)]
+    return [sum(a * b for a, b in zip(rots[0], r)) for r in rots[1:]]
+
+
+def _compare_tlr(case, out, resp):
+    """the averaged traffic-light camera stored with every loaded frame that has transforms vs the model's
+    (mean position, sum of the sign-aligned rotations): same rotation matrix, same position"""
+    if resp is None or "tlr" not in resp:
+        return None  # the model's _get_transforms fails: no frame with transforms exists (error kinds are compared elsewhere)
+    m = resp["tlr"]
+    frames = [("/".join(map(str, cfg)), i, fr) for cfg, res in zip(case["configs"], out["results"]) for i, fr in enumerate(res.get("frames", []))]
+    frames += [("2d:" + "/".join(map(str, cfg)), i, fr) for cfg, res in zip(case.get("configs2d", []), out["results2d"])
+               for i, fr in enumerate(res.get("frames", [])) if fr["ego2map"] is not None]
+    for tag, i, fr in frames:
+        x = fr["tlr2ego"]
+        if (x is None) != (m is None):
+            return f"{tag} frame {i}: averaged traffic-light camera impl {x} != model {m}"
+        if x is not None:
+            d = _cmp_pose(f"{tag} frame {i} averaged traffic-light camera", x["pos"], x["rot"], m["pos"], m["rot"])
+            if d:
+                # a 4-D dot product of exactly 0 is decided by float rounding in the code: not comparable
+                return "skip" if any(abs(v) < 1e-9 for v in _tlr_dots(case)) else d
+    return None
+
+
 def compare(case, out, resps):
+    d = _compare_main(case, out, resps)
+    if d:
+        return d
+    return _compare_tlr(case, out, resps[2] if len(resps) > 2 else None)
+
+
+def _compare_main(case, out, resps):
     if case.get("configs2d"):
         d = _compare_2d(case, out, resps[1] if len(resps) > 1 else None)
         if d:
@@ -1083,24 +1252,40 @@ def _picked_lidar(case, sample_token):
 
 
 NOT_JUDGED = {"dup-token", "dup-instance", "lidar-offset", "bad-channel", "stale-uuid"}
-N1_TAG = "[C16-N1]"
 
 
-def _tlr_sum_zero(case):
-    """signature of the known finding C16-N1: the calibrated rotations of the traffic-light cameras (every
-    calibrated_sensor whose channel contains CAM_TRAFFIC_LIGHT) sum to the zero quaternion, e.g. q and -q"""
-    sen = {s["token"]: s for s in case["sensors"]}
-    rots = [[Fraction(v) for v in c["rotation"]] for c in case["calibrated_sensors"]
-            if c["sensor_token"] in sen and "CAM_TRAFFIC_LIGHT" in sen[c["sensor_token"]]["channel"].upper()]
-    return bool(rots) and all(sum(r[k] for r in rots) == 0 for k in range(4))
+def _tlr_expected(case):
+    """INDEPENDENT reference for the averaged traffic-light camera (exact rationals, no use of the model): None when no
+    calibrated sensor's channel contains CAM_TRAFFIC_LIGHT; else the mean of the calibrated translations and the
+    rotation matrices of the sums of the calibrated rotations, each negated when its 4-D dot product with the FIRST one
+    is negative (q and -q are one rotation) - several candidates only where a dot product is exactly 0"""
+    tl = _tlr_calibs(case)
+    if not tl:
+        return None
+    rots = [[Fraction(v) for v in c["rotation"]] for c in tl]
+    pos = [sum(Fraction(c["translation"][k]) for c in tl) / len(tl) for k in range(3)]
+    sums = [list(rots[0])]
+    for r in rots[1:]:
+        d = sum(a * b for a, b in zip(rots[0], r))
+        signs = [1, -1] if d == 0 else [1] if d > 0 else [-1]
+        sums = [[a + sg * b for a, b in zip(acc, r)] for acc in sums for sg in signs][:16]
+    return {"pos": pos, "rots": [_qrot(q_) for q_ in sums], "n": len(tl)}
 
 
-def known_finding(case, out, failure):
-    """C16-N1: _get_transforms averages the traffic-light camera rotations as sum(q)/sum(q).norm and raises
-    ZeroDivisionError when they cancel (two cameras calibrated q and -q = the same rotation). Signature: the failure is
-    exactly that exception on a dataset whose traffic-light rotations sum to zero; every other oracle clause holds."""
-    if isinstance(failure, str) and failure.startswith(N1_TAG) and _tlr_sum_zero(case):
-        return "C16-N1"
+def _check_tlr(tag, fr, exp):
+    got = fr.get("tlr2ego")
+    if exp is None:
+        if got is not None:
+            return f"{tag}: a CAM_TRAFFIC_LIGHT -> BASE_LINK transform is stored although the dataset has no traffic-light camera"
+        return None
+    if got is None:
+        return f"{tag}: no averaged traffic-light camera transform (CAM_TRAFFIC_LIGHT -> BASE_LINK) stored with the frame"
+    if not _vclose(got["pos"], exp["pos"]):
+        return (f"{tag}: averaged traffic-light camera position {got['pos']} is not the mean of the {exp['n']} calibrated "
+                f"translations {[float(v) for v in exp['pos']]}")
+    if not any(_mclose(got["rot"], R) for R in exp["rots"]):
+        return (f"{tag}: averaged traffic-light camera rotation {got['rot']} is not the normalised sum of the {exp['n']} "
+                f"sign-aligned calibrated rotations {[[float(v) for v in row] for row in exp['rots'][0]]}")
     return None
 
 
@@ -1136,7 +1321,7 @@ def _oracle_2d(case, out):
     inst = {}
     for i in case["instances"]:
         inst.setdefault(i["token"], i)
-    n1 = None
+    tlr = _tlr_expected(case)
     for cfg, res in zip(case["configs2d"], out["results2d"]):
         task, family, merge, frames = cfg
         tag = "2d:" + "/".join(map(str, cfg))
@@ -1145,9 +1330,6 @@ def _oracle_2d(case, out):
                 return f"{tag}: a dataset without samples must be rejected with DatasetLoadingError, got {res.get('err', 'frames')}"
             continue
         if family == "traffic_light" and task == "classification2d":
-            continue
-        if res.get("err") == "ZeroDivisionError" and _tlr_sum_zero(case):
-            n1 = f"{N1_TAG} {tag}: loading a well-formed dataset raised ZeroDivisionError (traffic-light camera rotations cancel)"
             continue
         if "err" in res:
             return f"{tag}: loading a well-formed dataset raised {res['err']}"
@@ -1159,6 +1341,10 @@ def _oracle_2d(case, out):
             t2 = f"{tag} frame {i}"
             if fr["t"] != s["timestamp"]:
                 return f"{t2}: timestamp {fr['t']} != sample's {s['timestamp']}"
+            if fr["ego2map"] is not None:  # a requested camera has data: _get_transforms ran
+                d = _check_tlr(t2, fr, tlr)
+                if d:
+                    return d
             anns = _expected_2d(case, cfg, s, chan)
             if len(fr["objects"]) != len(anns):
                 return f"{t2}: {len(fr['objects'])} objects for {len(anns)} 2-D annotations on the requested cameras"
@@ -1183,7 +1369,7 @@ def _oracle_2d(case, out):
                     wr = None
                 if o["roi"] != wr:
                     return f"{t3}: roi {o['roi']} != {wr} (bbox {a['bbox']})"
-    return n1
+    return None
 
 
 def oracle(case, out):
@@ -1191,12 +1377,11 @@ def oracle(case, out):
 
     if case.get("contract") in NOT_JUDGED:
         return None
-    n1 = None
     if case.get("configs2d"):
         d = _oracle_2d(case, out)
-        if d and not d.startswith(N1_TAG):
+        if d:
             return d
-        n1 = d
+    tlr = _tlr_expected(case)
     S = case["samples"]
     inst = {i["token"]: i for i in case["instances"]}
     cat = {c["token"]: c for c in case["categories"]}
@@ -1218,10 +1403,6 @@ def oracle(case, out):
             # outside the property's domain (no lidar key frame): the loader documents ValueError
             if res.get("err") != "ValueError":
                 return f"{tag}: a sample without LIDAR_TOP/LIDAR_CONCAT must raise ValueError, got {res.get('err', 'frames')}"
-            continue
-        if res.get("err") == "ZeroDivisionError" and _tlr_sum_zero(case):
-            # known finding: reported after every other clause has been checked
-            n1 = f"{N1_TAG} {tag}: loading a well-formed dataset raised ZeroDivisionError (traffic-light camera rotations cancel)"
             continue
         if "err" in res:
             return f"{tag}: loading a well-formed dataset raised {res['err']}"
@@ -1246,6 +1427,10 @@ def oracle(case, out):
             M[:3, :3], M[:3, 3] = Re, te
             if not np.allclose(np.array(em["matrix"]), M, rtol=0, atol=1e-9 * max(1.0, np.abs(te).max())):
                 return f"{t2}: stored ego->map transform {em['matrix']} is not the lidar key frame's ego pose {M.tolist()}"
+            # the averaged traffic-light camera stored with the frame (q and -q are one rotation: fixed finding C16-N1)
+            d = _check_tlr(t2, fr, tlr)
+            if d:
+                return d
             # one object per annotation; the loader keeps the devkit's (= annotation table) order, the property
             # only asks for a bijection: match by instance id
             objs = {}
@@ -1303,7 +1488,7 @@ def oracle(case, out):
                             return f"{t3}: history state {h} is not the pose/size of the preceding annotation {b['token']}"
                 elif o["tracked"] is not None:
                     return f"{t3}: {task} task exposes a history"
-    return n1
+    return None
 
 
 # ----------------------------------------------------------------------------- histogram, shrinking, search
@@ -1323,6 +1508,23 @@ def branches(case, out):
     chans = {s["channel"] for s in case["sensors"]}
     br.append("lidar:" + ("both" if {"LIDAR_TOP", "LIDAR_CONCAT"} <= chans else "top" if "LIDAR_TOP" in chans else "concat" if "LIDAR_CONCAT" in chans else "none"))
     br.append(f"sensors:{len(case['sensors'])}")
+    tl = _tlr_calibs(case)
+    br.append(f"tlr-cams:{min(len(tl), 3)}")
+    if len(tl) >= 2:
+        rots = [[Fraction(v) for v in c["rotation"]] for c in tl]
+        for r, d in zip(rots[1:], _tlr_dots(case)):
+            anti = all(a == -b for a, b in zip(rots[0], r))
+            br.append("tlr:antipodal(q,-q)" if anti else "tlr:nearly-antipodal" if d < Fraction(-9, 10) else "tlr:negated" if d < 0
+                      else "tlr:orthogonal" if d == 0 else "tlr:equal" if r == rots[0] else "tlr:near" if d > Fraction(9, 10) else "tlr:kept")
+        if all(sum(r[k] for r in rots) == 0 for k in range(4)):
+            br.append("tlr:plain-sum-zero")
+        if len(rots) >= 3:
+            dot = lambda a, b: sum(x * y for x, y in zip(a, b))  # noqa: E731
+            r1 = rots[1] if dot(rots[0], rots[1]) >= 0 else [-v for v in rots[1]]
+            if dot(rots[0], rots[2]) * dot(r1, rots[2]) < 0:
+                br.append("tlr:first-vs-previous-differ")
+    if any(fr.get("tlr2ego") is not None for res in out["results"] + out.get("results2d", []) for fr in res.get("frames", [])):
+        br.append("tlr:average-stored")
     if any(not x["is_key_frame"] for x in case["sample_data"]):
         br.append("has-sweeps")
     br.append("visibility-table:" + ("empty" if not case["visibility"] else "present"))
@@ -1555,4 +1757,5 @@ def shrink(case):
 
 
 def search(rng, st, disagreements):
-    return [gen_dataset(rng) for _ in range(30)] + [gen_dataset(rng, family=f) for f in ("multi-keyframe", "all-fp") for _ in range(5)]
+    return ([gen_dataset(rng) for _ in range(30)] + [gen_dataset(rng, family=f) for f in ("multi-keyframe", "all-fp") for _ in range(5)]
+            + [shape_tlr(rng, gen_dataset(rng, n_samples=2, tlr_rig=True), [rel]) for rel in TLR_RELATIONS + ["chain"] for _ in range(2)])
